@@ -387,6 +387,44 @@ Fixpoint join (sep : Z) (l : list (list Z)) : list Z :=
 Definition print_pair (ta tb : Z) (a b : Z) : list Z := print_scalar ta a ++ def_sep :: print_scalar tb b.
 Definition print_list (ty : Z) (l : list Z) : list Z := join def_sep (map (print_scalar ty) l).
 
+(* std::string& xconvert(std::string& accu, IT begin, IT end, char sep): APPENDS to accu - a separator in front of every element
+   but the first one OF THIS CALL (`for (bool first = true; begin != end; first = false)`), whatever accu already holds.
+   xconvert(std::string&, const std::vector<T>&, char sep) forwards to it. *)
+Fixpoint append_seq (ty sep : Z) (first : bool) (accu : list Z) (l : list Z) : list Z :=
+  match l with
+  | [] => accu
+  | v :: r => append_seq ty sep false ((if first then accu else accu ++ [sep]) ++ print_scalar ty v) r
+  end.
+Definition xconv_range (ty sep : Z) (accu l : list Z) : list Z := append_seq ty sep true accu l.
+Definition xconv_list (ty : Z) (accu l : list Z) : list Z := xconv_range ty def_sep accu l.
+(* toString(x, y) / toString(x, y, z): std::string res; xconvert(res, x).append(1, ','); ... return xconvert(res, z) - the last component a list *)
+Definition comma : Z := 44.
+Definition tostring2 (ta a ty : Z) (l : list Z) : list Z := xconv_list ty (print_scalar ta a ++ [comma]) l.
+Definition tostring3 (ta a tb b ty : Z) (l : list Z) : list Z :=
+  xconv_list ty ((print_scalar ta a ++ [comma]) ++ print_scalar tb b ++ [comma]) l.
+
+(* convert_seq / xconvert(const char*, std::vector<T>&, errPos, int sep) with an explicit separator (sep <> 0) *)
+Fixpoint seq_loop_s (sep : Z) (fuel : nat) (ty : Z) (e : bool) (n : list Z) (acc : list Z) : list Z * list Z * bool :=
+  match fuel with
+  | O => (acc, n, true)
+  | S f =>
+      let r := parse_scalar ty e n in
+      if negb (p_ok r) then (acc, n, false)
+      else
+        let n' := skipn (p_len r) n in
+        let acc' := acc ++ [p_val r] in
+        match n' with
+        | c :: ((_ :: _) as t) => if c =? sep then seq_loop_s sep f ty (p_err r) t acc' else (acc', n', false)
+        | _ => (acc', n', false)
+        end
+  end.
+Definition parse_list_s (sep ty : Z) (e : bool) (x : list Z) : list Z * nat * bool :=
+  let b := head_is seq_open x in
+  let n0 := if b then tl x else x in
+  let '(els, n, fault) := seq_loop_s sep (S (length x)) ty e n0 [] in
+  if negb b || head_is seq_close n then (els, (length x - length (if b then tl n else n))%nat, fault)
+  else (els, O, fault).
+
 (* ---------- value encoding of the case protocol ---------- *)
 Definition wrap_s (bits : Z) (v : Z) : Z := (v + 2 ^ (bits - 1)) mod 2 ^ bits - 2 ^ (bits - 1).
 Definition norm (ty : Z) (v : Z) : Z :=                 (* static_cast<T>(long long) *)
@@ -464,6 +502,67 @@ Definition obs_print_list (ty : Z) (l0 : list Z) : list Z :=
   let '(ok, els) := cast_list ty false (cut0 s) in
   zlen s :: s ++ b2z ok :: zlen els :: map to_ll els.
 
+(* op 8: lists written into NON-EMPTY accumulators (harness/h_c16.cpp):
+   8 0 ta a ty n v..            s = toString(A(a), vector<T>);      back: xconvert(s, A&, &end); *end == ',' ? string_cast(end+1, vector<T>&)
+   8 1 ta a tb b ty n v..       s = toString(A(a), B(b), vector<T>); back: A, ',', B, ',', vector
+   8 2 ty sep plen bytes n v..  accu = bytes; xconvert(accu, vec.begin(), vec.end(), char(sep)); back: xconvert(accu.c_str() + plen, vector<T>&, &end, sep)
+   8 3 ty d n v.. m w..         accu = ""; xconvert(accu, l1); accu += char(d); xconvert(accu, l2); back: string_cast of the two parts
+   8 4 ty n v..                 accu = "["; xconvert(accu, vec); accu += "]"; back: string_cast(accu, vector<T>&) *)
+Definition few_ok (ty : Z) : bool := existsb (Z.eqb ty) [0; 2; 7; 10].
+Definition obs_cast_list (ty : Z) (e : bool) (x : list Z) : list Z :=
+  let '(ok, els) := cast_list ty e x in b2z ok :: zlen els :: map to_ll els.
+Definition obs_scalar_then (ta : Z) (e : bool) (x : list Z) (k : bool -> list Z -> list Z) (fail : list Z) : list Z :=
+  let r := parse_scalar ta e x in
+  [b2z (p_ok r); (if p_ok r then to_ll (p_val r) else 0); Z.of_nat (p_len r)] ++
+  match skipn (p_len r) x with
+  | c :: t => if p_ok r && (c =? comma) then k (p_err r) t else fail
+  | [] => fail
+  end.
+Definition obs_tostring2 (ta a0 ty : Z) (l0 : list Z) : list Z :=
+  let a := norm ta a0 in let l := map (norm ty) l0 in
+  if negb (comp_ok ta && comp_ok ty) || negb (enum_repr_ok ta a && forallb (enum_repr_ok ty) l) then unsupported else
+  let s := tostring2 ta a ty l in
+  zlen s :: s ++ obs_scalar_then ta false (cut0 s) (obs_cast_list ty) [0; 0].
+Definition obs_tostring3 (ta a0 tb b0 ty : Z) (l0 : list Z) : list Z :=
+  let a := norm ta a0 in let b := norm tb b0 in let l := map (norm ty) l0 in
+  if negb (few_ok ta && few_ok tb && comp_ok ty) || negb (enum_repr_ok ta a && enum_repr_ok tb b && forallb (enum_repr_ok ty) l) then unsupported else
+  let s := tostring3 ta a tb b ty l in
+  zlen s :: s ++ obs_scalar_then ta false (cut0 s) (fun e1 t => obs_scalar_then tb e1 t (obs_cast_list ty) [0; 0]) [0; 0; 0; 0; 0].
+Definition obs_append_range (ty sep : Z) (pre : list Z) (l0 : list Z) : list Z :=
+  let l := map (norm ty) l0 in
+  if negb (comp_ok ty) || negb (forallb (enum_repr_ok ty) l) || negb ((1 <=? sep) && (sep <=? 255)) then unsupported else
+  let s := xconv_range ty sep pre l in
+  let '(els, k, fault) := parse_list_s sep ty false (cut0 (skipn (length pre) s)) in
+  (if fault then [-997] else []) ++ zlen s :: s ++ zlen els :: Z.of_nat k :: map to_ll els.
+Definition obs_two_lists (ty d : Z) (l1 l2 : list Z) : list Z :=
+  let l1 := map (norm ty) l1 in let l2 := map (norm ty) l2 in
+  if negb (comp_ok ty) || negb (forallb (enum_repr_ok ty) (l1 ++ l2)) || negb ((1 <=? d) && (d <=? 255)) then unsupported else
+  let s1 := xconv_list ty [] l1 in
+  let s := xconv_list ty (s1 ++ [d]) l2 in
+  zlen s :: s ++ zlen s1 :: obs_cast_list ty false (cut0 s1) ++ obs_cast_list ty false (cut0 (skipn (S (length s1)) s)).
+Definition obs_bracketed (ty : Z) (l0 : list Z) : list Z :=
+  let l := map (norm ty) l0 in
+  if negb (comp_ok ty) || negb (forallb (enum_repr_ok ty) l) then unsupported else
+  let s := xconv_list ty [seq_open] l ++ [seq_close] in
+  zlen s :: s ++ obs_cast_list ty false (cut0 s).
+Definition take_vals (r : list Z) : list Z * list Z :=      (* n v1..vn *)
+  match r with
+  | n :: t => (firstn (Z.to_nat n) t, skipn (Z.to_nat n) t)
+  | [] => ([], [])
+  end.
+Definition obs_append (r : list Z) : list Z :=
+  match r with
+  | 0 :: ta :: a :: ty :: t => obs_tostring2 ta a ty (fst (take_vals t))
+  | 1 :: ta :: a :: tb :: b :: ty :: t => obs_tostring3 ta a tb b ty (fst (take_vals t))
+  | 2 :: ty :: sep :: plen :: t =>
+      let pre := map (fun b => b mod 256) (firstn (Z.to_nat plen) t) in
+      if (plen <? 0) || negb (length pre =? Z.to_nat plen)%nat then unsupported
+      else obs_append_range ty sep pre (fst (take_vals (skipn (Z.to_nat plen) t)))
+  | 3 :: ty :: d :: t => let '(l1, t2) := take_vals t in obs_two_lists ty d l1 (fst (take_vals t2))
+  | 4 :: ty :: t => obs_bracketed ty (fst (take_vals t))
+  | _ => unsupported
+  end.
+
 (* op 6: what the translator assumed about the platform and the enum classes *)
 Definition obs_meta (k : Z) : list Z :=
   if k =? 0 then map to_ll [c_INT_MIN; c_INT_MAX; c_UINT_MAX; c_LONG_MIN; c_LONG_MAX; c_ULONG_MAX; c_LLONG_MIN; c_LLONG_MAX; c_ULLONG_MAX]
@@ -489,5 +588,6 @@ Definition run_case (c : list Z) : list Z :=
   | 5 :: ty :: n :: r => obs_print_list ty (firstn (Z.to_nat n) r)
   | 6 :: k :: _ => obs_meta k
   | 7 :: ty :: lo :: hi :: _ => obs_sweep ty lo hi
+  | 8 :: r => obs_append r
   | _ => unsupported
   end.
